@@ -294,8 +294,21 @@ def _job(args):
         ex = core.Explorer(timeout_ms=h.timeout_ms, max_paths=h.max_paths,
                            product_abstraction=h.product_abstraction,
                            deadline=time.time() + deadline_s)
+        def _run_path(c):
+            ncex = len(c.cex)
+            h.sym(c, **params)
+            # translator validation for harnesses with a validate() hook that do not capture path models themselves
+            if getattr(h, "validate", None) is not None and not getattr(h, "captures_itself", False) \
+                    and len(PENDING_VALIDATION) < 2 and len(c.cex) == ncex and getattr(c, "inputs", None):
+                try:
+                    m = dyadic_model(c, None) or c.model()
+                except z3.Z3Exception:
+                    m = c.model()
+                if m is not None:
+                    inp = concretize(getattr(c, "inputs", {}), m)
+                    PENDING_VALIDATION.append(_unjson(_jsonable(inp)))
         try:
-            ex.run(lambda c: h.sym(c, **params))
+            ex.run(_run_path)
         finally:
             facade.uninstall()
         if ex.collected and not ex.truncated:
@@ -457,6 +470,11 @@ def run_property(pid, modname, tier, seed, level_note, assumptions, bounds, only
             inconclusive.append(f"{r['harness']} {r['params']}: solver unknown for {r['inconclusive'][:5]}")
         validated += r.get("validated", 0)
         for mm in r.get("validation_mismatch", []) or []:
+            # a real-code violation that belongs to an open known finding of this harness is that finding, not an
+            # encoding disagreement
+            if any(k.get("status", "open") == "open" and k["property"] == pid and k["harness"] == r["harness"]
+                   and all(r["params"].get(a) == b for a, b in k.get("params", {}).items()) for k in known):
+                continue
             mismatches.append(dict(harness=r["harness"], params=r["params"], **mm))
         if r.get("validation_error"):
             errors.append(f"{r['harness']} {r['params']}: differential validation failed: {r['validation_error']}")
@@ -872,4 +890,5 @@ def dual_harness(name, scenario, configs, units, resample=0, **kw):
         return False, last
     h = Harness(name, sym, replay, configs, units, **kw)
     h.validate = validate
+    h.captures_itself = True
     return h
